@@ -47,19 +47,7 @@ def pAnyMesh : P AnyMesh := do
   | _ => failure
 
 /-- the decidable hypothesis under which the model speaks for one object -/
-def anyOk : AnyMesh → Bool
-  | .explicit m => m.mesh.wfEq
-  | .permuted m => m.mesh.wfEq
-  | .rect g => g.ok
-  | .struct g => g.ok
-  | .image g => g.ok
-
-/-- is the pair answered by a structured short-cut? -/
-def shortcut : AnyMesh → AnyMesh → Bool
-  | .image _, .image _ => true
-  | .rect _, .rect _ => true
-  | .struct _, .struct _ => true
-  | _, _ => false
+def anyOk (a : AnyMesh) : Bool := a.ok
 
 /-- the generic path needs the generated points of image meshes: axis-aligned basis, no overflow -/
 def genericOk : AnyMesh → Bool
